@@ -171,11 +171,13 @@ def numeric(kind, node):
     return None
 
 
-def classify(exc):
+def classify(exc, o=None):
     if exc is None:
         return 0
     if isinstance(exc, (TypeError, RuntimeError)):
         return 1
+    if o is not None and o.get("fault") and o["fault"]["kind"] in FAULTS_LOOP:
+        return 2      # whatever a malformed sequence k raises while it is processed: the batch failed at index k
     if isinstance(exc, ValueError) and "Warmup set to" in str(exc):
         return 2
     return 3
@@ -204,19 +206,55 @@ def gen_store(rng, force=None):
     if off:
         models.append({"readouts": off})
     if on:
-        models.append({"readouts": on[:1]})
+        models.append({"readouts": on})
     # an ESN node built on the SAME reservoir and (Ridge) readout objects: ESN.fit = per-sequence partial_fit from a reset
     # reservoir copy, then readout.fit()
-    esn = nodes[1]["kind"] == "ridge" and (force is not None or rng.random() < 0.6)
+    esn = nodes[1]["kind"] == "ridge"
     return {"d": d, "nodes": nodes, "models": models, "esn": bool(esn)}
 
 
-def gen_batch(rng, d, douts, warmup, nseq, bad=None):
-    """nseq sequences; sequence `bad` (if any) is not longer than the warm-up."""
-    lens = [warmup + rng.randint(1, 4) for _ in range(nseq)]
-    if bad is not None:
+FAULTS_LOOP = ("yshort", "yshort1", "ylong")                      # raise while sequence k is processed (run phase / partial_backward)
+FAULTS_ALL = ("yshort", "yshort1", "ylong", "ywide", "nan", "ynan")
+
+
+def gen_batch(rng, d, douts, warmup, nseq, bad=None, fault=None):
+    """nseq sequences; sequence `bad` (if any) is not longer than the warm-up, or -- with `fault` -- is malformed:
+    yshort / yshort1 / ylong: the target sequence has far fewer / one fewer / more rows than the input sequence; ywide: one more target column;
+    nan / ynan: a NaN among the inputs / targets (applied when the arrays are built)."""
+    lens = [warmup + rng.randint(2, 4) for _ in range(nseq)]
+    if bad is not None and fault is None:
         lens[bad] = rng.randint(1, warmup)
-    return {"X": [rows(rng, T, d) for T in lens], "Y": {str(i): [rows(rng, T, dd) for T in lens] for i, dd in douts.items()}}
+    if bad is not None and fault is not None:
+        lens[bad] = warmup + 4
+    b = {"X": [rows(rng, T, d) for T in lens], "Y": {str(i): [rows(rng, T, dd) for T in lens] for i, dd in douts.items()}}
+    if bad is not None and fault is not None:
+        b["fault"] = {"kind": fault, "k": bad}
+    return b
+
+
+def apply_fault(o, X, Ys):
+    """X: list of arrays; Ys: {node index: list of arrays}.  Returns the malformed batch of the scenario."""
+    f = o.get("fault")
+    if not f:
+        return X, Ys
+    k, kind = f["k"], f["kind"]
+    X = [x.copy() for x in X]
+    Ys = {j: [y.copy() for y in ys] for j, ys in Ys.items()}
+    for j in Ys:
+        y = Ys[j][k]
+        if kind == "yshort":       # much shorter: the model cannot even be run over the sequence (IndexError on the targets)
+            Ys[j][k] = y[:1]
+        elif kind == "yshort1":    # one row short
+            Ys[j][k] = y[:-1]
+        elif kind == "ylong":
+            Ys[j][k] = np.vstack([y, y[:1]])
+        elif kind == "ywide":
+            Ys[j][k] = np.hstack([y, y[:, :1]])
+        elif kind == "ynan":
+            Ys[j][k][-1, 0] = np.nan
+    if kind == "nan":
+        X[k][-1, 0] = np.nan
+    return X, Ys
 
 
 def gen_ops(rng, store, nops):
@@ -232,6 +270,15 @@ def gen_ops(rng, store, nops):
     def pick_model(pref_kinds):
         good = [m for m, md in enumerate(store["models"]) if nodes[md["readouts"][0]]["kind"] in pref_kinds]
         return rng.choice(good) if good and rng.random() < 0.85 else rng.randrange(len(store["models"]))
+    all_ridge = bool(offl) and all(nodes[j]["kind"] == "ridge" for j in offl)
+
+    def badseq(w, nseq, p):
+        """(index of the bad sequence or None, fault kind or None)"""
+        if rng.random() >= p:
+            return None, None
+        if all_ridge and rng.random() < 0.5:
+            return rng.randrange(nseq), rng.choice(FAULTS_LOOP)
+        return (rng.randrange(nseq), None) if w > 0 else (None, None)
     ops = []
     for _ in range(nops):
         r = rng.random()
@@ -253,30 +300,32 @@ def gen_ops(rng, store, nops):
         elif r < 0.50:
             w = rng.choice([0, 1, 1, 2])
             nseq = rng.randint(1, 3)
-            bad = rng.randrange(nseq) if (w > 0 and rng.random() < 0.35) else None
-            ops.append(dict(op="fit", node=i, warmup=w, **gen_batch(rng, d, {i: nodes[i]["dout"]}, w, nseq, bad)))
+            bad, fault = badseq(w, nseq, 0.35)
+            ops.append(dict(op="fit", node=i, warmup=w, **gen_batch(rng, d, {i: nodes[i]["dout"]}, w, nseq, bad, fault)))
         elif r < 0.56:
             ops.append({"op": "fit0", "node": i})
         elif r < 0.68:
             ops.append(dict(op="train", node=i, **gen_batch(rng, d, {i: nodes[i]["dout"]}, 0, 1)))
         elif r < 0.75:
-            ops.append({"op": "freeze", "node": rng.choice([0] + readouts), "value": rng.random() < 0.7})
+            ops.append({"op": "freeze", "node": rng.choice([0] + readouts + readouts), "value": rng.random() < 0.25})
         elif r < 0.83 and store.get("esn"):
             w = rng.choice([0, 1, 1, 2])
             nseq = rng.randint(1, 3)
-            bad = rng.randrange(nseq) if (w > 0 and rng.random() < 0.4) else None
-            ops.append(dict(op="efit", node=1, warmup=w, **gen_batch(rng, d, {1: nodes[1]["dout"]}, w, nseq, bad)))
+            bad, fault = badseq(w, nseq, 0.4)
+            ops.append(dict(op="efit", node=1, warmup=w, **gen_batch(rng, d, {1: nodes[1]["dout"]}, w, nseq, bad, fault)))
         elif r < 0.92:
             m = pick_model(("ridge", "sumoff", "sklearn"))
             rd = store["models"][m]["readouts"]
             w = rng.choice([0, 1, 1, 2])
             nseq = rng.randint(1, 3)
-            bad = rng.randrange(nseq) if (w > 0 and rng.random() < 0.35) else None
-            ops.append(dict(op="mfit", model=m, warmup=w, **gen_batch(rng, d, {j: nodes[j]["dout"] for j in rd}, w, nseq, bad)))
+            bad, fault = badseq(w, nseq, 0.35)
+            ops.append(dict(op="mfit", model=m, warmup=w, tform=rng.choice(["auto", "dict"]),
+                            **gen_batch(rng, d, {j: nodes[j]["dout"] for j in rd}, w, nseq, bad, fault)))
         else:
             m = pick_model(("rls", "lms"))
             rd = store["models"][m]["readouts"]
-            ops.append(dict(op="mtrain", model=m, **gen_batch(rng, d, {j: nodes[j]["dout"] for j in rd}, 0, 1)))
+            ops.append(dict(op="mtrain", model=m, tform=rng.choice(["auto", "dict"]),
+                            **gen_batch(rng, d, {j: nodes[j]["dout"] for j in rd}, 0, 1)))
     return ops
 
 
@@ -303,14 +352,35 @@ class World:
         self.sc = sc
         self.nodes = [build_node(s) for s in sc["nodes"]]
         self.kinds = [s["kind"] for s in sc["nodes"]]
-        self.models = []
-        for m in sc["models"]:
-            rd = [self.nodes[j] for j in m["readouts"]]
-            self.models.append(self.nodes[0] >> (rd if len(rd) > 1 else rd[0]))
-        self.esn = None
-        if sc.get("esn"):
+        # models and the ESN are assembled at their first use, so that a freeze can come before or after the assembly
+        self._models = [None] * len(sc["models"])
+        self._esn = None
+
+    def model(self, m):
+        if self._models[m] is None:
+            rd = [self.nodes[j] for j in self.sc["models"][m]["readouts"]]
+            self._models[m] = self.nodes[0] >> (rd if len(rd) > 1 else rd[0])
+        return self._models[m]
+
+    @property
+    def esn(self):
+        if self._esn is None and self.sc.get("esn"):
             from reservoirpy.nodes import ESN
-            self.esn = ESN(reservoir=self.nodes[0], readout=self.nodes[1], workers=1, name=uname("esn"))
+            self._esn = ESN(reservoir=self.nodes[0], readout=self.nodes[1], workers=1, name=uname("esn"))
+        return self._esn
+
+    def batch(self, o, js):
+        d = self.sc["d"]
+        X = [farr(sq, d) for sq in o["X"]]
+        Ys = {j: [farr(sq, self.sc["nodes"][j]["dout"]) for sq in o["Y"][str(j)]] for j in js}
+        return apply_fault(o, X, Ys)
+
+    def targets_arg(self, o, rd, Ys, seq):
+        """array (single readout) or name-keyed mapping; seq=True: lists of sequences, else one sequence"""
+        pick = (lambda ys: ys) if seq else (lambda ys: ys[0])
+        if len(rd) == 1 and o.get("tform", "auto") != "dict":
+            return pick(Ys[rd[0]])
+        return {self.nodes[j].name: pick(Ys[j]) for j in rd}
 
     def snap(self):
         return [snapshot(k, n) for k, n in zip(self.kinds, self.nodes)]
@@ -328,13 +398,14 @@ class World:
             if o["op"] == "run":
                 self.nodes[o["node"]].run(farr(o["X"], d))
             elif o["op"] == "mrun":
-                self.models[o["model"]].run(farr(o["X"], d))
+                self.model(o["model"]).run(farr(o["X"], d))
             elif o["op"] == "partial_fit":
                 j = o["node"]
                 self.nodes[j].partial_fit([farr(s, d) for s in o["X"]], self.ydata(o, j), warmup=o["warmup"])
             elif o["op"] == "fit":
                 j = o["node"]
-                self.nodes[j].fit([farr(s, d) for s in o["X"]], self.ydata(o, j), warmup=o["warmup"])
+                X, Ys = self.batch(o, [j])
+                self.nodes[j].fit(X, Ys[j], warmup=o["warmup"])
             elif o["op"] == "fit0":
                 self.nodes[o["node"]].fit()
             elif o["op"] == "train":
@@ -350,24 +421,25 @@ class World:
                     if rc.is_initialized:
                         rc.reset()
                     feats.append(np.asarray(rc.run(farr(sq, d)), dtype=float).tolist())
-                self.esn.fit([farr(sq, d) for sq in o["X"]], self.ydata(o, 1), warmup=o["warmup"])
+                X, Ys = self.batch(o, [1])
+                self.esn.fit(X, Ys[1], warmup=o["warmup"])
             elif o["op"] in ("mfit", "mtrain"):
                 m = o["model"]
                 rd = self.sc["models"][m]["readouts"]
                 rc = copy.deepcopy(self.nodes[0])          # feature oracle: the reservoir as it is before the operation
-                if not self.models[m].is_initialized and rc.is_initialized:
+                if not self.model(m).is_initialized and rc.is_initialized:
                     rc.reset()                            # Model.initialize resets the states of its nodes at first use
                 feats = [np.asarray(rc.run(farr(s, d)), dtype=float).tolist() for s in o["X"]]
+                X, Ys = self.batch(o, rd)
                 if o["op"] == "mfit":
-                    X = [farr(s, d) for s in o["X"]]
-                    Y = self.ydata(o, rd[0]) if len(rd) == 1 else {self.nodes[j].name: self.ydata(o, j) for j in rd}
-                    self.models[m].fit(X, Y, warmup=o["warmup"], **o.get("kw", {}))
+                    self.model(m).fit(X, self.targets_arg(o, rd, Ys, True), warmup=o["warmup"], **o.get("kw", {}))
                 else:
-                    Y = self.ydata(o, rd[0], False) if len(rd) == 1 else {self.nodes[j].name: self.ydata(o, j, False) for j in rd}
-                    self.models[m].train(farr(o["X"][0], d), Y)
+                    self.model(m).train(X[0], self.targets_arg(o, rd, Ys, False))
             else:
                 raise ValueError(o["op"])
         except Exception as e:  # noqa: BLE001 -- the exception IS the observation
+            if isinstance(e, KeyError) and e.args and e.args[0] in ("warmup", "X", "Y", "node", "model", "op", "value"):
+                raise          # a malformed scenario is a harness bug, not an observation
             return e, feats
         return None, feats
 
@@ -383,7 +455,7 @@ def runnable(w, o):
         return bool(w.nodes[o["node"]].is_initialized)
     if o["op"] == "efit":
         # ESN.fit does not look at is_trainable before creating / cleaning buffers: only unfrozen readouts are modelled
-        return w.esn is not None and bool(w.nodes[1].is_trainable)
+        return bool(w.sc.get("esn")) and bool(w.nodes[1].is_trainable)
     if o["op"] == "run":
         return not sk_unfit(o["node"])
     if o["op"] in ("mrun", "mtrain"):
@@ -410,10 +482,10 @@ def run_history(sc):
                             W=numeric(k, n)))
         order = None
         if "model" in o:
-            order = [[id(x) for x in w.nodes].index(id(n)) for n in w.models[o["model"]].nodes]
+            order = [[id(x) for x in w.nodes].index(id(n)) for n in w.model(o["model"]).nodes]
         if o["op"] == "efit":
             order = [0, 1]
-        obs.append({"code": classify(exc), "exc": None if exc is None else "%s: %s" % (type(exc).__name__, str(exc)[:120]),
+        obs.append({"code": classify(exc, o), "exc": None if exc is None else "%s: %s" % (type(exc).__name__, str(exc)[:120]),
                     "nodes": per, "feats": feats, "order": order})
         before = after
     sc["ops"] = done
@@ -438,8 +510,11 @@ def coq_node(s):
     return "nd_lms %s %s %s %s" % (coqbool(s["bias"]), q(Fraction(s["alpha"])), nat(d), nat(dout))
 
 
-def coq_seqs(xs, ys):
-    return coqlist(["(%s, Some %s)" % (qmat(x), qmat(F(y))) for x, y in zip(xs, ys)])
+def coq_seqs(xs, ys, fault=None):
+    out = ["(%s, Some %s)" % (qmat(x), qmat(F(y))) for x, y in zip(xs, ys)]
+    if fault:
+        out[fault["k"]] = "([], Some [])"      # rejected when reached, after sequences 0..k-1 (model: FailedPartial at k)
+    return coqlist(out)
 
 
 def coq_op(sc, o, ob):
@@ -450,7 +525,8 @@ def coq_op(sc, o, ob):
     if o["op"] == "partial_fit":
         return "OPartialFit %s %s %s" % (nat(o["node"]), nat(o["warmup"]), coq_seqs([F(x) for x in o["X"]], o["Y"][str(o["node"])]))
     if o["op"] == "fit":
-        return "OFit %s %s (Some %s)" % (nat(o["node"]), nat(o["warmup"]), coq_seqs([F(x) for x in o["X"]], o["Y"][str(o["node"])]))
+        return "OFit %s %s (Some %s)" % (nat(o["node"]), nat(o["warmup"]),
+                                         coq_seqs([F(x) for x in o["X"]], o["Y"][str(o["node"])], o.get("fault")))
     if o["op"] == "fit0":
         return "OFit %s %s None" % (nat(o["node"]), nat(0))
     if o["op"] == "train":
@@ -461,7 +537,9 @@ def coq_op(sc, o, ob):
     if o["op"] == "efit":
         # ESN.fit has the shape of a one-stage Model.fit on [reservoir; readout]: initialize_buffers, partial_fit per sequence
         # (clean the readout and re-raise on failure), readout.fit()
-        seqs = coqlist([coqlist(["(%s, (%s, Some %s))" % (nat(1), qmat(ob["feats"][k]), qmat(F(o["Y"]["1"][k])))])
+        fk = o["fault"]["k"] if o.get("fault") else None
+        seqs = coqlist([coqlist(["(%s, ([], Some []))" % nat(1) if k == fk else
+                                 "(%s, (%s, Some %s))" % (nat(1), qmat(ob["feats"][k]), qmat(F(o["Y"]["1"][k])))])
                         for k in range(len(o["X"]))])
         return "OMFit [%s;%s] %s [] %s" % (nat(0), nat(1), nat(o["warmup"]), seqs)
     rd = sc["models"][o["model"]]["readouts"]
@@ -469,7 +547,9 @@ def coq_op(sc, o, ob):
     members = coqlist([nat(j) for j in ob["order"]])
     feats = ob["feats"]
     if o["op"] == "mfit":
-        seqs = coqlist([coqlist(["(%s, (%s, Some %s))" % (nat(j), qmat(feats[s]), qmat(F(o["Y"][str(j)][s]))) for j in rd])
+        fk = o["fault"]["k"] if o.get("fault") else None
+        seqs = coqlist([coqlist(["(%s, ([], Some []))" % nat(j) if s == fk else
+                                 "(%s, (%s, Some %s))" % (nat(j), qmat(feats[s]), qmat(F(o["Y"][str(j)][s]))) for j in rd])
                         for s in range(len(o["X"]))])
         return "OMFit %s %s [] %s" % (members, nat(o["warmup"]), seqs)
     ds = coqlist(["(%s, (%s, Some %s))" % (nat(j), qmat(feats[0]), qmat(F(o["Y"][str(j)][0]))) for j in rd])
@@ -502,7 +582,7 @@ def correspondence(ctx):
     n = ctx.n(150, 1500)
     terms, keep, nt, dist = [], [], set(), {}
     for i in range(n):
-        sc = gen_scenario(rng, i)
+        sc = gen_freeze(rng, i // 5) if i % 5 == 4 else gen_scenario(rng, i)
         try:
             _, obs = run_history(sc)
             term = to_coq(sc, obs)
@@ -524,7 +604,9 @@ def correspondence(ctx):
             "rule": "seeded histories of 3-8 operations (run, partial_fit, fit with/without data, train, freeze, Model.fit, ESN.fit, Model.train, "
                     "Model.run; batches of 1-3 sequences with a too-short sequence at a random index in ~1/3 of the fits) on a store of one "
                     "reservoir and 1-2 readouts among Ridge / RLS / LMS / ScikitLearnNode(Ridge) / SumOffline (default buffers), used both "
-                    "alone and inside reservoir >> readout(s); after every operation and for every node: which parameter hashes changed, "
+                    "alone and inside reservoir >> readout(s) (array and name-keyed targets; models assembled at first use, so freezes come before or "
+                    "after assembly; a malformed sequence k -- targets shorter / longer than inputs -- in half of the failing Ridge batches); one "
+                    "history in five is a freeze scenario (two readouts of one kind, one frozen); after every operation and for every node: which parameter hashes changed, "
                     "len(_buffers), `_X is _Y`, len(_X), len(_Y), fitted, is_trainable, the exception class and Wout/bias are compared with "
                     "the model at Q; non-trivial = at least two completed training operations, or one completed and one failed; distinct by "
                     "scenario text",
@@ -603,7 +685,7 @@ def _same(a, b):
 def _fit_outcome(w, o):
     exc, _ = w.apply(o)
     rd = [o["node"]] if "node" in o else w.sc["models"][o["model"]]["readouts"]
-    return classify(exc), [(_learned_values(w.kinds[j], w.nodes[j])) for j in rd]
+    return classify(exc, o), [(_learned_values(w.kinds[j], w.nodes[j])) for j in rd]
 
 
 def judge_session(sc):
@@ -663,8 +745,13 @@ def gen_session(rng, i):
         else {"op": "fit", "node": 1}
     nseq = rng.randint(2, 3)
     if mode.startswith("failed"):
-        first = dict(tgt, warmup=w, **gen_batch(rng, d, douts, w, nseq, rng.randint(1, nseq - 1)))
+        # the bad sequence (index k >= 1): not longer than the warm-up, or malformed (fewer / more / wider targets, NaN)
+        # every failure kind in turn for every API (Node.fit, Model.fit, ESN.fit), whatever the seed
+        fault = ([None, "yshort", "ylong", "ywide", "nan", "ynan", "yshort1"][(i // 10) % 7]) if mode != "failed-default" else None
+        first = dict(tgt, warmup=w, **gen_batch(rng, d, douts, w, nseq, rng.randint(1, nseq - 1), fault))
         key = "failed-fit:partial-sums-kept:%s" % ("model" if model else "esn" if mode.endswith("esn") else "node")
+        if fault in ("nan", "ynan"):
+            key = "failed-fit:backward-raised:sums-kept"     # NaN passes partial_fit and makes the solve raise
     elif mode.startswith("singular"):
         # second input column null and ridge = 0: XXT is exactly singular -> LinAlgError in backward
         b = gen_batch(rng, d, douts, w, nseq)
@@ -685,13 +772,72 @@ def gen_session(rng, i):
     alt = None
     if mode.startswith("refit"):
         alt = dict(tgt, warmup=w, **gen_batch(rng, d, douts, w, rng.randint(1, 3)))
-    return dict(store, first=first, second=second, alt=alt, key=key, mode=mode, tag=i)
+    return dict(store, first=first, second=second, alt=alt, key=key, mode=mode + ("" if not first.get("fault") else ":" + first["fault"]["kind"]), tag=i)
+
+
+def gen_freeze(rng, i):
+    """Two readouts of one kind on one reservoir; one of them is frozen before the model is assembled / after assembly /
+    after a first training session; then Model.train or Model.fit (array or name-keyed targets that still name the frozen
+    node) and the node-level training call, twice on different data."""
+    kind = ["lms", "rls", "ridge", "sumoff", "lms", "ridge"][i % 6]
+    when = ["before-assembly", "after-assembly", "after-first-training"][(i // 6) % 3]
+    store = gen_store(rng, force=[kind, kind])
+    d, nodes = store["d"], store["nodes"]
+    online = kind in ("lms", "rls")
+    douts = {1: nodes[1]["dout"], 2: nodes[2]["dout"]}
+    def mop(single):
+        rd = [2] if single else [1, 2]
+        b = gen_batch(rng, d, {j: douts[j] for j in rd}, 0, 1 if online else rng.randint(1, 2))
+        return dict(op="mtrain" if online else "mfit", model=1 if single else 0, warmup=0, tform=rng.choice(["dict", "dict", "auto"]), **b)
+    def nop():
+        return dict(op="train" if online else "fit", node=2, warmup=0, **gen_batch(rng, d, {2: douts[2]}, 0, 1))
+    # model 0: reservoir >> [keep, frozen]; model 1: reservoir >> frozen alone
+    store["models"] = [{"readouts": [1, 2]}, {"readouts": [2]}]
+    store["esn"] = False
+    fr = {"op": "freeze", "node": 2, "value": False}
+    asm = {"op": "mrun", "model": 0, "X": rows(rng, 2, d)}
+    asm1 = {"op": "mrun", "model": 1, "X": rows(rng, 2, d)}
+    if when == "before-assembly":
+        pre = [fr]
+    elif when == "after-assembly":
+        pre = ([asm, asm1] if online or kind == "ridge" else []) + [fr]
+        if not pre[:-1]:
+            when = "before-assembly"
+    else:
+        pre = [mop(False), fr]
+    ops = pre + [mop(False), mop(False), nop(), mop(True), {"op": "freeze", "node": 2, "value": True}, mop(False), nop()]
+    return dict(store, ops=ops, frozen=2, nfreeze=len(pre), mode="%s/%s" % (kind, when), tag=i)
+
+
+def judge_freeze(sc):
+    """After the freeze, no parameter of the frozen node changes (its initialisation from None apart); fixed parameters of
+    every node never change."""
+    w = World(sc)
+    j = sc["frozen"]
+    before = w.snap()
+    for t, o in enumerate(sc["ops"]):
+        if not runnable(w, o):
+            continue
+        w.apply(o)
+        after = w.snap()
+        for i2, k in enumerate(w.kinds):
+            fc = changed(before[i2][0], after[i2][0])
+            if fc:
+                return _viol("fixed-param-changed:%s" % k, "op %d (%s): fixed parameter(s) %s of node %d changed" % (t, o["op"], fc, i2), sc, [], fc)
+        lc = changed(before[j][1], after[j][1])
+        if t >= sc["nfreeze"] and lc:
+            return _viol("train:frozen-node-changed", "op %d (%s, targets %s): parameters %s of the frozen %s readout changed (%s)"
+                         % (t, o["op"], o.get("tform", "-"), lc, w.kinds[j], sc["mode"]), sc, [], lc)
+        before = after
+    return None
 
 
 def judge(case):
     sc = case["scenario"]
     if "second" in sc:
         return judge_session(sc)
+    if "frozen" in sc:
+        return judge_freeze(sc)
     return judge_frame(sc)
 
 
@@ -710,15 +856,25 @@ def oracle(ctx, scale=1):
         v = judge_session(sc)
         if v:
             out.append(v)
-    return {"evaluations": n1 + n2, "violations": out, "distribution": dist,
+    n3 = ctx.n(36, 360) * scale
+    for i in range(n3):
+        sc = gen_freeze(rng, i)
+        dist["freeze:" + sc["mode"]] = dist.get("freeze:" + sc["mode"], 0) + 1
+        v = judge_freeze(sc)
+        if v:
+            out.append(v)
+    return {"evaluations": n1 + n2 + n3, "violations": out, "distribution": dist,
             "rule": "(i)/(ii) sha256 of every parameter and hyper of every node before/after each operation of a random history: fixed ones "
                     "never change, learned ones only on trainable targets of a training operation; (iii)-(v) two-fit sessions on Ridge, "
                     "reservoir >> Ridge(s), ESN(reservoir, Ridge), SumOffline and ScikitLearnNode: second fit after a completed fit / after a fit failing at "
                     "sequence k >= 1 / after a fit whose solve is singular == the same fit on fresh objects, and independent of the "
-                    "first fit's data"}
+                    "first fit's data (the failing sequence: too short for the warm-up, targets shorter / longer / wider than the inputs, "
+                    "NaN); freeze scenarios: a readout (LMS, RLS, Ridge, SumOffline) frozen before / after model assembly / after a first "
+                    "session, then Model.train / Model.fit with array and name-keyed targets naming it, and node-level calls: its parameters "
+                    "never change"}
 
 
 def replay(payload):
     sc = payload["scenario"]
-    v = judge_session(sc) if "second" in sc else judge_frame(sc)
+    v = judge_session(sc) if "second" in sc else judge_freeze(sc) if "frozen" in sc else judge_frame(sc)
     return {"violates": bool(v), "detail": v}
